@@ -96,6 +96,21 @@ SLOTS = {
     "numpy.isclose": ["a", "b", "rtol", "atol", "equal_nan"],
     "numpy.allclose": ["a", "b", "rtol", "atol", "equal_nan"],
 }
+# leading positional parameters of further numpy / builtin functions (used only to canonicalise keyword spelling)
+EXT_SIGNATURES = {
+    "numpy.ones": ["shape", "dtype"], "numpy.empty": ["shape", "dtype"], "numpy.full": ["shape", "fill_value", "dtype"],
+    "numpy.zeros_like": ["a", "dtype"], "numpy.ones_like": ["a", "dtype"], "numpy.eye": ["N", "M", "k"], "numpy.identity": ["n"],
+    "numpy.tril": ["m", "k"], "numpy.diag": ["v", "k"], "numpy.where": ["condition", "x", "y"], "numpy.sum": ["a", "axis"],
+    "numpy.transpose": ["a"], "numpy.dot": ["a", "b"], "numpy.matmul": ["x1", "x2"], "numpy.linalg.inv": ["a"], "numpy.linalg.solve": ["a", "b"],
+    "numpy.atleast_1d": ["arys"], "numpy.atleast_2d": ["arys"], "numpy.array": ["object", "dtype"], "numpy.asarray": ["a", "dtype"],
+    "numpy.unravel_index": ["indices", "shape"], "numpy.argmax": ["a", "axis"], "numpy.argmin": ["a", "axis"], "numpy.unique": ["ar"],
+    "numpy.hstack": ["tup"], "numpy.maximum": ["x1", "x2"], "numpy.minimum": ["x1", "x2"], "numpy.abs": ["x"], "numpy.sqrt": ["x"],
+    "numpy.count_nonzero": ["a", "axis"], "numpy.flatnonzero": ["a"], "numpy.nonzero": ["a"], "numpy.logical_and": ["x1", "x2"],
+    "numpy.logical_or": ["x1", "x2"], "numpy.logical_not": ["x"], "numpy.any": ["a", "axis"], "numpy.all": ["a", "axis"],
+    "sorted": ["iterable"], "round": ["number", "ndigits"], "copy.deepcopy": ["x"],
+}
+EXT_NPOS = {"numpy.dot": 2, "numpy.matmul": 2, "numpy.linalg.solve": 2, "numpy.maximum": 2, "numpy.minimum": 2, "numpy.logical_and": 2,
+            "numpy.logical_or": 2, "numpy.isclose": 2, "numpy.allclose": 2, "numpy.where": 3, "numpy.unravel_index": 2, "numpy.full": 2}
 GEN_SLOTS = {
     "uniform": ["low", "high", "size"],
     "integers": ["low", "high", "size", "dtype", "endpoint"],
